@@ -17,6 +17,17 @@ CHECKS = {
             'Glue obligations (fnmatch call chain, include-any/exclude-none loop, finite POSIX tables and regex templates) are discharged for '
             'all inputs. The parser postcondition Lang(translate(p,f)) == Den(p,f) cannot be proved over all patterns with the tools present; it '
             'is checked per pattern for ALL names by a decision procedure, bounded in the pattern only. Labelled bounded, not proved.', '5 C01'),
+    'C02': ('other', 'sidecar contracts discharged by own VC generator + z3 (glob._flag_transform, is_unix_style, NODIR finite lemmas); compiler postcondition as bounded '
+            'stand-in: exact regular-language decision per path pattern',
+            'Flag-algebra obligations are proved for all flag words; the path-pattern compiler postcondition must <= Lang(translate(p,f)) <= may is decided per pattern for ALL paths, '
+            'bounded in the pattern only. Labelled bounded, not proved.', '5 C02'),
+    'C03': ('other', 'sidecar contracts discharged by own VC generator + z3 (exclusion routes force DOTMATCH, hidden guards); per-pattern exact language decision on the hidden-name domain',
+            'Per pattern, the set of accepted hidden names/paths is decided exactly (an emptiness check for patterns without a written leading dot); bounded in the pattern. '
+            'Glue obligations proved for all inputs.', '5 C03'),
+    'C17': ('other', 'bit-vector contracts on the real flag functions discharged by z3 for all 2^64 flag words x both platforms, statement-level lemmas over the contracts; '
+            'language closure obligations per pattern',
+            'The mode-selection clause of C17 is a lemma over contracts proved on the real bodies (complete). Closure of the matched language under case/separator changes is exact per pattern, '
+            'bounded in the pattern.', '5 C17'),
 }
 
 NOT_YET = 'check not built yet in this round (work in progress; see DESIGN.md 9 build order)'
